@@ -1,6 +1,7 @@
 package raft
 
 import (
+	"bufio"
 	"bytes"
 	"context"
 	"io"
@@ -24,6 +25,7 @@ type vPipeEnd struct {
 	peer      *vPipeEnd
 	delivered int    // bytes written by this end
 	owner     uint64 // node id holding this end (cluster harnesses; 0 = unknown)
+	onWrite   func() // called at the start of every Write (a harness can make the network slow here)
 }
 
 func vPipe() (*vPipeEnd, *vPipeEnd) {
@@ -52,6 +54,9 @@ func (e *vPipeEnd) Read(b []byte) (int, error) {
 }
 
 func (e *vPipeEnd) Write(b []byte) (int, error) {
+	if e.onWrite != nil {
+		e.onWrite()
+	}
 	if e.closed || e.peer.closed {
 		return 0, vIOError{"write on closed connection"}
 	}
@@ -1482,3 +1487,112 @@ func VH_C16_cluster3_transfer_sched1() { VH_C16_cluster3_transfer() }
 
 //verif:check C07,C03 tier=thorough sched=coop+1 maxsteps=1000000 onunwind=violation stubs=rt,timers,valuefile,abslog onblock=violation reach=submitted,answered,closed,end desc="as VH_C07_cluster2_client_ops under every goroutine schedule that differs from round robin in at most one hand-over (the batching goroutine then also forms batches of more than one task)" bounds="as VH_C07_cluster2_client_ops; schedules within 1 deviation from round robin" maxdec=6000
 func VH_C07_cluster2_client_ops_sched1() { VH_C07_cluster2_client_ops() }
+
+// ---- the replication goroutine against a scripted peer: what is left on a connection that goes back to the pool ----
+
+// vScriptedPeer answers on one end of a pipe the way a follower does: identity -> success, append -> success with
+// the index the request covers, vote -> alreadyVoted. Every request and reply goes through the library's codecs.
+func vScriptedPeer(conn *vPipeEnd, served *int) {
+	br := bufio.NewReader(conn)
+	bw := bufio.NewWriter(conn)
+	for {
+		b, err := br.ReadByte()
+		if err != nil {
+			return
+		}
+		switch rpcType(b) {
+		case rpcIdentity:
+			q := &identityReq{}
+			if q.decode(br) != nil {
+				return
+			}
+			_ = (&identityResp{resp{term: q.term, result: success}}).encode(bw)
+		case rpcAppendEntries:
+			q := &appendReq{}
+			if q.decode(br) != nil {
+				return
+			}
+			for k := uint64(0); k < q.numEntries; k++ {
+				e := &entry{}
+				if e.decode(br) != nil {
+					return
+				}
+			}
+			_ = (&appendResp{resp{term: q.term, result: success}, q.prevLogIndex + q.numEntries}).encode(bw)
+		case rpcVote:
+			q := &voteReq{}
+			if q.decode(br) != nil {
+				return
+			}
+			_ = (&voteResp{resp{term: q.term, result: alreadyVoted}}).encode(bw)
+		default:
+			return
+		}
+		*served++
+		if bw.Flush() != nil {
+			return
+		}
+	}
+}
+
+//verif:check C01,C04,C20 sched=coop maxsteps=600000 onunwind=violation stubs=rt,timers,valuefile,abslog onblock=violation reach=pipeline-write-in-flight,stopped,pooled,end desc="the real replication goroutine (probe, pipeline writer and reader) against a scripted peer, stopped by its leader while the pipeline writer is inside a network write that then completes: when the goroutine has ended, a connection it put back into the per-peer pool has no unanswered request on it - the next request sent on it (a vote request of the same node's next candidacy) is answered by the reply to THAT request, never by a left-over reply of the pipeline counted as a vote" bounds="leader log of 1 entry; the third network write (the pipeline's first request) is held while the leader stops the replication; both outcomes of the writer's select between the stop signal and reporting its request"
+func VH_C01_replication_conn_reuse() {
+	r := vLoopNode(Leader)
+	r.hbTimeout = 1000
+	var leaderEnd *vPipeEnd
+	served := 0
+	writes, gate := 0, make(chan struct{})
+	r.dialFn = func(network, address string, timeout time.Duration) (net.Conn, error) {
+		a, b := vPipe()
+		leaderEnd = a
+		a.onWrite = func() {
+			writes++
+			if writes == 3 {
+				<-gate // the network is slow for this one
+			}
+		}
+		go vScriptedPeer(b, &served)
+		return a, nil
+	}
+	r.resolver.addrs[2] = vAddr(2)
+	l := r.ldr
+	l.replUpdateCh = make(chan replUpdate, 64)
+	repl := &replication{
+		node: r.configs.Latest.Nodes[2], rtime: newRandTime(),
+		status:        replicationStatus{id: 2, node: r.configs.Latest.Nodes[2]},
+		ldrStartIndex: 1, ldrLastIndex: r.lastLogIndex, nextIndex: r.lastLogIndex + 1,
+		connPool: r.getConnPool(2), hbTimeout: r.hbTimeout, timer: newSafeTimer(),
+		log: r.log.ViewAt(0, r.lastLogIndex), snaps: r.snaps,
+		stopCh: make(chan struct{}), replUpdateCh: l.replUpdateCh, leaderUpdateCh: make(chan leaderUpdate, 1),
+	}
+	areq := &appendReq{req: req{r.term, r.nid}, ldrCommitIndex: r.commitIndex, prevLogIndex: r.lastLogIndex, prevLogTerm: r.lastLogTerm}
+	ended := make(chan struct{})
+	go func() { repl.runLoop(areq); close(ended) }()
+	step := 0
+	vSetIdleHook(func() {
+		switch step {
+		case 0:
+			vAssert(writes == 3 && repl.matchIndex == r.lastLogIndex, "CR-pipeline-writer-is-inside-its-first-write")
+			vReach("pipeline-write-in-flight")
+			close(repl.stopCh) // the leader steps down and stops its replications
+		case 1:
+			close(gate) // the write completes after all
+		}
+		step++
+	})
+	<-ended
+	vReach("stopped")
+	pool := r.getConnPool(2)
+	if len(pool.conns) == 1 {
+		vReach("pooled")
+		// the same node campaigns later and reuses the pooled connection for its vote request
+		resp := &voteResp{}
+		err := pool.doRPC(&voteReq{req: req{r.term + 1, r.nid}, lastLogIndex: r.lastLogIndex, lastLogTerm: r.lastLogTerm}, resp, time.Now().Add(time.Second))
+		vAssert(err == nil, "CR-vote-request-on-the-pooled-connection-answered")
+		vAssert(resp.result == alreadyVoted && resp.term == r.term+1, "CR-reply-belongs-to-the-request-it-answers")
+	} else {
+		vReach("closed-not-pooled")
+		vAssert(leaderEnd.closed, "CR-connection-not-pooled-is-closed")
+	}
+	vReach("end")
+}
